@@ -4,6 +4,7 @@ Verdict per obligation: 'unsat' = discharged; 'sat' = refused with a counter-mod
 Back ends: z3 (python API, fresh context per query) first; then /usr/bin/cvc5 and /usr/bin/z3 (4.8) on the SMT-LIB dump.
 """
 import os
+import re
 import sys
 import time
 import traceback
@@ -177,6 +178,18 @@ def s_isinstance(obj, cls):
     return _real_isinstance(obj, cl)
 
 
+def _native_repo_frame(tb, repo):
+    """name of a function of the repository that appears in the traceback as NATIVELY executed code (its file is a real file of the
+    repository; rebuilt functions are compiled under the pseudo file name '<cut:...>'), or None"""
+    root = os.path.realpath(repo) + os.sep
+    while tb is not None:
+        fn = tb.tb_frame.f_code.co_filename
+        if not fn.startswith('<') and os.path.realpath(fn).startswith(root):
+            return '%s (%s)' % (tb.tb_frame.f_code.co_name, os.path.relpath(os.path.realpath(fn), root))
+        tb = tb.tb_next
+    return None
+
+
 def _innermost_file(tb):
     last = None
     while tb is not None:
@@ -185,14 +198,39 @@ def _innermost_file(tb):
     return last or ''
 
 
+_NATIVE_CALLEE = re.compile(r'unsupported construct: callee (\w+) \(([^)]+)\) ran outside the engine')
+
+
 def explore(unit, repo):
-    """Run the unit's function on symbolic inputs along every path. Returns UnitResult."""
+    """Run the unit's function on symbolic inputs along every path. Returns UnitResult.
+
+    A module-level helper of the repository that the unit's function calls and that the unit neither stubs nor inlines (typically one that
+    a refactoring has just extracted) would run natively, with the real numpy, on the proxies.  When that fails, the helper is rebuilt
+    under the shim like the unit's own function (its source re-read from the repository, no loop contracts: its loops must be concrete)
+    and the exploration is repeated - so that the extracted code stays under the unit's obligations instead of leaving the unit undecided."""
+    extra = []
+    res = _explore_once(unit, repo, extra)
+    for _ in range(4):
+        m = _NATIVE_CALLEE.match(res.undecided_reason or '')
+        if not m or (m.group(2), m.group(1)) in [(e[0], e[1]) for e in extra]:
+            break
+        extra.append((m.group(2), m.group(1), {}))
+        res2 = _explore_once(unit, repo, extra)
+        if (res2.undecided_reason or '').startswith('extraction'):
+            break
+        res2.gen_s += res.gen_s
+        res2.auto_inlined = [e[1] for e in extra]
+        res = res2
+    return res
+
+
+def _explore_once(unit, repo, extra_inline=()):
     res = UnitResult(unit)
     t0 = time.time()
     try:
         ns = base_namespace(unit.module)
         ns.update(unit.ns)
-        for ip, iq, il in unit.inline:
+        for ip, iq, il in list(unit.inline) + list(extra_inline):
             g, _ = cut.build(os.path.join(repo, ip), iq, il, ns)
         f, nloops = cut.build(os.path.join(repo, unit.path), unit.qualname, unit.loops, ns)
         res.loopsig = ';'.join('%d:%s' % (k, v) for k, v in sorted(getattr(ns.get('__vc'), 'sigs', {}).items()))
@@ -232,6 +270,12 @@ def explore(unit, repo):
                     raise Unsupported('solver-library error inside the engine %s: %s' % (type(ex).__name__, str(ex)[:200]))
                 if where.startswith(HERE) and not isinstance(ex, ModelledError):
                     raise Unsupported('engine error %s: %s at %s' % (type(ex).__name__, ex, traceback.format_exc(limit=-3)))
+                nat = _native_repo_frame(tb, repo)
+                if nat is not None and not isinstance(ex, ModelledError):
+                    # a function of the repository that is neither the unit nor one of its inlined / stubbed callees (a helper the unit's
+                    # function calls - e.g. one a refactoring has just extracted) ran NATIVELY, with the real numpy, on symbolic proxies:
+                    # whatever it raised says nothing about the code
+                    raise Unsupported('callee %s ran outside the engine (not rebuilt under the numpy shim): %s: %s' % (nat, type(ex).__name__, str(ex)[:120]))
                 if isinstance(ex, AttributeError) and not isinstance(ex, ModelledError) and _is_stub_object(getattr(ex, 'obj', None)):
                     # a stand-in for a library namespace (scipy.signal, interpolate, ...) lacks the attribute: an engine limit
                     raise Unsupported('stub limit %s: %s' % (type(ex).__name__, ex))
